@@ -163,8 +163,8 @@ func protoAssignments(ix *PkgIndex) (map[string]map[string]string, map[string]st
 func enclosingIfCond(f *FuncInfo, n ast.Node) ast.Expr {
 	var best *ast.IfStmt
 	inspectNoLit(f.Body(), func(m ast.Node) bool {
-		if is, ok := m.(*ast.IfStmt); ok && is.Body.Pos() <= n.Pos() && n.End() <= is.Body.End() {
-			if best == nil || is.Pos() > best.Pos() {
+		if is, ok := m.(*ast.IfStmt); ok && containsNoLitOrIn(is.Body, n) {
+			if best == nil || containsNoLitOrIn(best.Body, is) {
 				best = is
 			}
 		}
@@ -550,7 +550,7 @@ func c13Copy(c *Ctx, ix *PkgIndex, xc xformCopy) []string {
 				if _, isArr := v.Type().Underlying().(*types.Array); !isArr {
 					return true
 				}
-				inside := v.Pos() >= body.Pos() && v.Pos() <= body.End()
+				inside := definedIn(info, body, v)
 				c.Check(inside, "R2", sp+"|"+ix.Outer(f).Name+"|"+exprStr(se)+" slices an array owned by this loop iteration", at(ix.M, se.Pos()), "fresh array per element",
 					"every element produced by this loop slices the SAME array "+v.Name()+" (declared outside the loop): after the loop all of them carry the last element's bytes (e.g. every link gets the last link's ids)")
 				return true
@@ -1063,7 +1063,7 @@ func expandExpr(info *types.Info, fn *FuncInfo, e ast.Expr, depth int) string {
 		switch x := e.(type) {
 		case *ast.Ident:
 			if v, ok := info.Uses[x].(*types.Var); ok && !v.IsField() && len(defs[v]) == 1 && d < 4 {
-				if v.Pos() > fn.Body().Pos() && v.Pos() < fn.Body().End() {
+				if definedIn(info, fn.Body(), v) {
 					return render(defs[v][0], d+1)
 				}
 			}
